@@ -3,12 +3,14 @@ equality, keys/len/validation structure, probability rows."""
 from __future__ import annotations
 
 import ast
+import copy
 from typing import Dict, List, Optional
 
 from ..callgraph import CallGraph
 from ..cfg import cfg_of
 from ..model import FunctionInfo, ClassInfo, AnalysisError
 from ..report import Ctx
+from ..pat import Snips
 from ..util import norm, fn_body_nodes, walk_local, kwarg
 from .c11 import raise_set, exc_ancestors
 
@@ -25,14 +27,76 @@ RULES = ("ORD-1 outermost-domain lookup first; NOOP-1 no-op shortcut compares in
          "AbstractTable.get); VAL-1 validation; POL-1 action_dist")
 
 
+class _Relabel(ast.NodeTransformer):
+    def __init__(self, m):
+        self.m = m
+
+    def visit_Name(self, node):
+        return ast.copy_location(ast.Name(id=self.m.get(node.id, node.id), ctx=node.ctx), node)
+
+
+def _by_role(node: ast.AST, roles: Dict[str, str]) -> str:
+    """text of `node` with the locals that were bound to a role shown as <role> (messages do not depend on the spelling of locals)."""
+    inv = {v: "<" + k.replace("_", " ") + ">" for k, v in roles.items()}
+    return norm(_Relabel(inv).visit(copy.deepcopy(node)))
+
+
+def _getitem_roles(gi: FunctionInfo):
+    """roles of the locals of a table's __getitem__, bound by what they are:
+         array_index      the name that receives self.table_index._array_index(<selector parameter>)
+         new_table_index  the name that receives self.table_index._updated_index(...)
+         new_data         the name that receives self._data[...]
+       returns (Snips, roles, statement of new_table_index, derived from array_index?, statement of new_data, selected with array_index and returned?)."""
+    S = Snips(gi)
+    sel = gi.positional_params[1]
+    top = gi.node.body
+
+    def top_find(p, env=None):
+        return [(n, e) for n, e in S.find(p, env) if any(n is b for b in top)]
+    roles: Dict[str, str] = {}
+    r = top_find(f"array_index = self.table_index._array_index({sel})")
+    if len(r) == 1:
+        roles["array_index"] = r[0][1]["array_index"]
+    ui_stmt, ui_ok, nd_stmt, nd_ok = None, False, None, False
+    if "array_index" in roles:
+        r = top_find("new_table_index = self.table_index._updated_index(array_index)", roles)
+        if r:
+            ui_stmt, ui_ok = r[0][0], True
+            roles["new_table_index"] = r[0][1]["new_table_index"]
+        r = top_find("new_data = self._data[array_index]", roles)
+        r = [(n, e) for n, e in r if S.has("return new_data", e)]
+        if r:
+            nd_stmt, nd_ok = r[0][0], True
+            roles["new_data"] = r[0][1]["new_data"]
+    # fall-backs: the roles stay bound (for the dependent rules) although the derivation itself is reported
+    if "new_table_index" not in roles:
+        r = top_find("new_table_index = self.table_index._updated_index(REST)") or S.find("self.__class__(data=ANY, table_index=new_table_index)")
+        if r:
+            ui_stmt = r[0][0] if isinstance(r[0][0], ast.stmt) else None
+            roles["new_table_index"] = r[0][1]["new_table_index"]
+    if "new_data" not in roles:
+        r = top_find("new_data = self._data[ANY]") or S.find("self.__class__(data=new_data, table_index=ANY)")
+        if r:
+            nd_stmt = r[0][0] if isinstance(r[0][0], ast.stmt) else None
+            roles["new_data"] = r[0][1]["new_data"]
+    return S, roles, ui_stmt, ui_ok, nd_stmt, nd_ok
+
+
 def run(ctx: Ctx):
     P = ctx.P
     G = CallGraph(P, ctx.X)
     TI = P.cls("TableIndex")
     ai = TI.methods["_array_index"]
     first = ai.node.body[0]
-    ok = isinstance(first, ast.Try) and any(isinstance(n, ast.Return) and ast.unparse(n.value).replace(" ", "") == "(idx,)" for n in ast.walk(first)) \
-        and "self.fields[0].domain.index(selector)" in ast.unparse(first)
+    SA = Snips(ai)
+    sel_p = ai.positional_params[1]
+    ok = False
+    if isinstance(first, ast.Try):
+        # the position found by the lookup is a local of the try body: bound as the target of the lookup, returned as a 1-tuple after it
+        for i, b in enumerate(first.body):
+            e = SA.m(f"idx = self.fields[0].domain.index({sel_p})", b)
+            if e is not None and any(SA.m("return (idx,)", b2, e) is not None for b2 in first.body[i + 1:]):
+                ok = True
     ctx.check(ok, "ORD-1", ai, first, "an element of the outermost domain is resolved before any other interpretation of the selector", "",
               "the outermost-domain lookup is not the first step of selector resolution: a key that is itself a tuple/list element of the domain can be "
               "interpreted as a multi-field selector")
@@ -41,35 +105,38 @@ def run(ctx: Ctx):
         ctx.check({"KeyError", "TypeError"} <= set(hs), "ORD-1", ai, first, "a failed domain lookup (missing or unhashable key) falls through to the other interpretations", str(hs),
                   f"the domain lookup only tolerates {hs}: an unhashable selector (a list of keys) would raise instead of being interpreted")
     # no-op shortcut
+    getitem_roles = {}
     for cname in ("table.table.Table", "ProbabilityTable"):
         gi = P.cls(cname).methods["__getitem__"]
-        ifs = [n for n in gi.node.body if isinstance(n, ast.If) and any(isinstance(b, ast.Return) and ast.unparse(b.value) == "self" for b in n.body)]
+        S, roles, ui_stmt, ui_ok, nd_stmt, nd_ok = _getitem_roles(gi)
+        getitem_roles[cname] = (S, roles)
+        ifs = [n for n in gi.node.body if isinstance(n, ast.If) and any(isinstance(b, ast.Return) and ast.unparse(b.value) == gi.self_name for b in n.body)]
         if not ifs:
             ctx.unknown("NOOP-1", gi, gi.node, f"{P.cls(cname).name}: no-op selection shortcut", "not present")
             continue
         t = ifs[0].test
-        ok = isinstance(t, ast.Compare) and isinstance(t.ops[0], ast.Eq) and {ast.unparse(t.left), ast.unparse(t.comparators[0])} == {"new_table_index", "self.table_index"}
-        ctx.check(ok, "NOOP-1", gi, ifs[0], f"{P.cls(cname).name}: selection is a no-op only if the new index equals the table's index", norm(t),
-                  f"the shortcut returns the table itself when `{norm(t)}`: a selection that permutes or restricts keys but keeps the shape is returned unpermuted")
-        nd = [n for n in gi.node.body if isinstance(n, ast.Assign) and ast.unparse(n.targets[0]) == "new_data"]
-        ok = bool(nd) and ast.unparse(nd[0].value) == "self._data[array_index]"
-        ctx.check(ok, "NOOP-1", gi, nd[0] if nd else gi.node, f"{P.cls(cname).name}: data selected with the resolved array index", "", "data is not selected with the array index resolved from the selector")
-        ui = [n for n in gi.node.body if isinstance(n, ast.Assign) and ast.unparse(n.targets[0]) == "new_table_index"]
-        ok = bool(ui) and ast.unparse(ui[0].value) == "self.table_index._updated_index(array_index)"
-        ctx.check(ok, "NOOP-1", gi, ui[0] if ui else gi.node, f"{P.cls(cname).name}: new index derived from the same array index", "", "index and data are derived from different selections")
+        ok = "new_table_index" in roles and S.m("new_table_index == self.table_index", t, roles) is not None
+        shown = _by_role(t, roles)
+        ctx.check(ok, "NOOP-1", gi, ifs[0], f"{P.cls(cname).name}: selection is a no-op only if the new index equals the table's index", "<new table index> == self.table_index",
+                  f"the shortcut returns the table itself when `{shown}`: a selection that permutes or restricts keys but keeps the shape is returned unpermuted")
+        ctx.check(nd_ok, "NOOP-1", gi, nd_stmt if nd_stmt is not None else gi.node, f"{P.cls(cname).name}: data selected with the resolved array index", "", "data is not selected with the array index resolved from the selector")
+        ctx.check(ui_ok, "NOOP-1", gi, ui_stmt if ui_stmt is not None else gi.node, f"{P.cls(cname).name}: new index derived from the same array index", "", "index and data are derived from different selections")
     eq = TI.methods["__eq__"]
-    ok = ast.unparse(eq.node.body[-1]).replace(" ", "") == "returnself._fields==other._fields"
+    ok = Snips(eq).m(f"return self._fields == {eq.positional_params[1]}._fields", eq.node.body[-1]) is not None
     ctx.check(ok, "NOOP-1", eq, eq.node, "TableIndex equality compares the ordered fields (names and domains)", "", "index equality does not compare ordered fields")
     # keys / len
     T = P.cls("table.table.Table")
     ctx.check("self.table_index.fields[0].domain" in ast.unparse(T.methods["keys"].node), "KEY-1", T.methods["keys"], T.methods["keys"].node, "keys iterate the outermost domain in order", "", "keys do not iterate the outermost domain")
     ctx.check("len(self.table_index.fields[0].domain)" in ast.unparse(T.methods["__len__"].node), "KEY-1", T.methods["__len__"], T.methods["__len__"].node, "len is the size of the outermost domain", "", "len is not the outermost domain's size")
     AT = P.cls("AbstractTable")
-    ctx.check("((k, self[k]) for k in self.keys())" in ast.unparse(AT.methods["items"].node), "KEY-1", AT.methods["items"], AT.methods["items"].node, "items pair every outer key with its own entry", "", "items pairing changed")
-    # probability rows
+    ctx.check(Snips(AT.methods["items"]).has("((k, self[k]) for k in self.keys())"), "KEY-1", AT.methods["items"], AT.methods["items"].node, "items pair every outer key with its own entry", "", "items pairing changed")
+    # probability rows: the roles are those of ProbabilityTable.__getitem__ bound above
     PT = P.cls("ProbabilityTable").methods["__getitem__"]
-    src = ast.unparse(PT.node)
-    ok = "if new_data.ndim <= -self.probs_start_index" in src and "TableDistribution(data=new_data, table_index=new_table_index)" in src
+    SP, proles = getitem_roles["ProbabilityTable"]
+    ok = False
+    for n in ast.walk(PT.node):
+        if isinstance(n, ast.If) and SP.m("new_data.ndim <= -self.probs_start_index", n.test, proles) is not None:
+            ok = ok or any(SP.has("return TableDistribution(data=new_data, table_index=new_table_index)", proles, within=b) for b in n.body)
     ctx.check(ok, "ROW-1", PT, PT.node, "a selection of probability rank becomes a distribution over the remaining domain", "", "probability rows are not turned into distributions at probability rank")
     ad = P.method("TabularPolicy", "action_dist")
     last = ad.node.body[-1]
@@ -78,16 +145,21 @@ def run(ctx: Ctx):
     ctx.check(ok, "POL-1", ad, ad.node, "action_dist(s) is the policy table's row of s", "", "action_dist is not the row selection")
     # list selectors
     ui = TI.methods["_updated_index"]
-    src = ast.unparse(ui.node)
-    ok = "domaintuple([self.fields[0].domain[i] for i in array_index])" in src and "*self.fields[1:]" in src
+    SU = Snips(ui)
+    aip = ui.positional_params[1]
+    ok = SU.has(f"[Field(name=self.fields[0].name, domain=domaintuple([self.fields[0].domain[i] for i in {aip}])), *self.fields[1:]]")
     ctx.check(ok, "LIST-1", ui, ui.node, "a list of outer keys restricts the outer field to those keys in the given order", "", "list selection does not rebuild the outer domain from the selector's index list")
-    ok = "new_domain = domaintuple([field.domain[i] for i in field_index])" in src
+    # roles: the loop variable over the fields, its position, the selector of that position, the rebuilt domain that is appended
+    sol = SU.solve(["for fi, field in enumerate(self.fields):\n    REST", f"field_index = {aip}[fi]", "new_domain = domaintuple([field.domain[i] for i in field_index])",
+                    "new_fields.append(Field(field.name, new_domain))"])
+    ok = sol is not None and all(any(n is x for x in ast.walk(sol[1][0])) for n in sol[1][1:])
     ctx.check(ok, "LIST-1", ui, ui.node, "inner list selectors restrict their field in the given order", "", "inner list selection changed")
     idd = TI.methods["_index_into_domain"]
-    ok = "type(field_selector)([domain.index(e) for e in field_selector])" in ast.unparse(idd.node)
+    fsp, domp = idd.positional_params[1:3]
+    ok = Snips(idd).has(f"type({fsp})([{domp}.index(e) for e in {fsp}])")
     ctx.check(ok, "LIST-1", idd, idd.node, "selector keys are mapped to their positions in order", "", "key-to-position mapping changed")
     dt = P.cls("domaintuple").methods["index"]
-    ctx.check("return self._index[element]" in ast.unparse(dt.node), "LIST-1", dt, dt.node, "domain position lookup is by the element itself", "", "domain index lookup changed")
+    ctx.check(Snips(dt).has(f"return self._index[{dt.positional_params[1]}]"), "LIST-1", dt, dt.node, "domain position lookup is by the element itself", "", "domain index lookup changed")
     # IFC-3: MDP tables
     st = P.method("StateTable", "__getitem__")
     hs = [h for n in ast.walk(st.node) if isinstance(n, ast.Try) for h in n.handlers]
@@ -120,10 +192,22 @@ def run(ctx: Ctx):
     sai = P.find_cls("StateActionIndexError")
     ok = sai is not None and "IndexError" in exc_ancestors(P, "StateActionIndexError")
     ctx.check(ok, "IFC-3", st, st.node, "StateActionIndexError is an IndexError", "", "the index error class changed its base")
-    # validation
+    # validation: the three shapes are bound by what they are computed from, then compared
     vt = T.methods["_validate_table"]
-    src = ast.unparse(vt.node)
-    ok = "len(set(c))" in src and "data_shape == coords_shape == unique_shape" in src and "raise ValueError" in src
+    SV = Snips(vt)
+    sol = SV.solve(["coords_shape = tuple([len(c1) for c1 in self.table_index.field_domains])",
+                    "unique_shape = tuple([len(set(c2)) for c2 in self.table_index.field_domains])",
+                    "data_shape = self._data.shape"])
+    ok = False
+    if sol is not None:
+        want = {sol[0]["coords_shape"], sol[0]["unique_shape"], sol[0]["data_shape"]}
+        for n in ast.walk(vt.node):
+            if isinstance(n, ast.If) and isinstance(n.test, ast.UnaryOp) and isinstance(n.test.op, ast.Not) and isinstance(n.test.operand, ast.Compare):
+                c = n.test.operand
+                operands = [c.left] + list(c.comparators)
+                if len(want) == 3 and len(operands) == 3 and all(isinstance(o, ast.Eq) for o in c.ops) and all(isinstance(o, ast.Name) for o in operands) \
+                        and {o.id for o in operands} == want and any(SV.has("raise ValueError(REST)", within=b) for b in n.body):
+                    ok = True
     ctx.check(ok, "VAL-1", vt, vt.node, "validation rejects duplicate coordinates and shape mismatches", "", "validation no longer compares data shape, coordinate counts and unique counts")
     init = T.methods["__init__"]
     ctx.check("self._validate_table()" in ast.unparse(init.node), "VAL-1", init, init.node, "tables are validated on construction", "", "validation is not run on construction")
